@@ -11,7 +11,8 @@ RULE = ('Full BacktestTradingSession runs with the fixed-weight alpha model over
         '10-250 business days, optional missing days, adjusted or not, rows shuffled in the files): rebalance in {daily, '
         'weekly x MON..FRI, end_of_month, buy_and_hold@14:30}, long-only with buffers 0-0.5 or long/short with leverage '
         '0.2-5, zero or percentage fees, initial cash 5e3-5e6, start 00:00/09:00/14:30, with and without burn-in, weights '
-        'incl. zeros, unnormalised values and assets absent from the weight dict. Every delivered fill (time, asset, '
+        'incl. zeros, unnormalised values and assets absent from the weight dict; in 30% of the markets one or two assets cost a '
+        'sizeable fraction of the account (targets of 0-10 units, positions that must be sold down to nothing). Every delivered fill (time, asset, '
         'quantity, price, commission), the orders of every rebalance, final cash and holdings and every daily equity '
         'value are compared with an independent reference implementation of the documented rules (csv rows + datetime '
         'calendar + exact rationals; no pandas, no qstrader). Non-trivial: >= 2 rebalances that traded and >= 1 sell; '
@@ -35,7 +36,7 @@ def run_shard(spec, acc):
             acc.count('stopped_on_time_budget')
             break
         cfg = sesswl.gen_cfg(rng, alpha_kinds=('fixed',), universe_kinds=('static',),
-                             max_days=60 if spec['tier'] == 'quick' else 250)
+                             max_days=60 if spec['tier'] == 'quick' else 250, expensive=True)
         tr, ref = sesswl.run_case(cfg, acc, PROP)
         acc.evaluations += 1
         acc.count('sessions:%s' % cfg['rebalance'])
